@@ -828,7 +828,12 @@ class ModelMixin:
             if name in ("items", "keys", "values"):
                 return [Res(st, SV("dictview", (recv, name)))]
             if name == "setdefault":
-                raise Unsupported("dict.setdefault")
+                kb = box(a[0])
+                has = z3.Select(dom, kb)
+                dflt = box(self.heapify(st, a[1])) if len(a) > 1 else NoneV
+                self.hset(st, "$dom", recv.t, z3.Store(dom, kb, z3.BoolVal(True)))
+                self.hset(st, "$map", recv.t, z3.Store(mp, kb, z3.If(has, z3.Select(mp, kb), dflt)))
+                return [Res(st, SV("val", z3.If(has, z3.Select(mp, kb), dflt)))]
         if k == "dictview":
             raise Unsupported("method on dict view")
         if k in ("str", "bytes"):
